@@ -447,7 +447,7 @@ class Nor(Logic):
 
         r = self.addOut("r", r)
 
-        mid = self.wire("Mid", lins[0].getWidth())
+        mid = self.wire("Mid", r.getWidth())
         
         # save inputs/outputs for RTL generation
         self.r = r
@@ -480,7 +480,7 @@ class Nor2(Logic):
         self.b = self.addIn("b", b)
         self.r = self.addOut("r", r)
 
-        self.mid = self.wire("Mid", a.getWidth())
+        self.mid = self.wire("Mid", r.getWidth())
 
         Or2(self, "Or", a, b, self.mid)
         Not(self, "Not", self.mid, r)
@@ -756,9 +756,9 @@ class Xor2(Logic):
         self.b = self.addIn("b", b)
         self.r = self.addOut("r", r)
 
-        mid = self.wire("Mid", a.getWidth())
-        xout = self.wire("XOut", a.getWidth())
-        yout = self.wire("YOut", a.getWidth())
+        mid = self.wire("Mid", r.getWidth())
+        xout = self.wire("XOut", r.getWidth())
+        yout = self.wire("YOut", r.getWidth())
 
         Nand2(self, "NandMid", a, b, mid)
         Nand2(self, "NandX", a, mid, xout)
